@@ -1595,6 +1595,7 @@ Proof.
   intros Hk. destruct p; cbn [handle_packet hres_st]; try apply gframe_refl.
   - (* PUBLISH *)
     destruct (has_wild topic); [apply gframe_refl|].
+    match goal with |- context [if ?b then HErrRead s (Some 148) else _] => destruct b end; [apply gframe_refl|].
     match goal with |- context [if ?b then HErrRead s (Some 130) else _] => destruct b end; [apply gframe_refl|].
     match goal with |- context [if ?b then HErrRead s (Some 147) else _] => destruct b end; [apply gframe_refl|].
     change (if (k_v k =? 5) && (0 <? qos) then set_quota (k_quota k - 1) k else k) with (charge k qos).
